@@ -105,10 +105,117 @@ for _w in EOLSETS:
         def _a(B):
             parse_line_step(B, w)
 
-        @contract(HTTPING + ":parseLine", props={"crlf": ["C13", "C17"], "crlf_lf": ["C13"], "crlf_lf_cr": ["C15"]}[w], name=HTTPING + ":parseLine[prefix-stability, eols=%s]" % w, z3_ms=1500)
-        def _b(B):
-            parse_line_prefix_stable(B, w)
+        if w != "crlf_lf_cr":
+            # (for three terminator kinds a step from the ENTRY state is not prefix-stable by the nature of the protocol -- a CR that
+            #  ends a read cannot be told from half a CRLF without lookahead -- which is why the parser carries `tail`: the arbitrary-turn
+            #  contract below states and proves that mechanism.  Restricted to buffers not ending in CR the relational obligation is
+            #  beyond both solvers (min over three IndexOf terms in two runs); the native tier samples it.)
+            @contract(HTTPING + ":parseLine", props={"crlf": ["C13", "C17"], "crlf_lf": ["C13"]}[w], name=HTTPING + ":parseLine[prefix-stability, eols=%s]" % w, z3_ms=1500, cvc5_ms=60000)
+            def _b(B):
+                parse_line_prefix_stable(B, w)
     _mk()
+
+
+# ------------------------------------------------------------------ one ARBITRARY turn of parseLine's loop (any history)
+
+def parse_line_turn(B, which):
+    """parseLine's `while True` loop cut by an invariant: the buffer is arbitrary at the head of a turn and the only state a turn
+    inherits is `tail`, the rest of a terminator that was split across reads (LF when a CR that could have been half a CRLF ended
+    the buffer), invariant: tail is b'' or such a remainder.  With b the buffer and t the tail at the head of the turn:
+        b' = b without its leading t when t and b are non-empty and b starts with t, else b   (the split terminator is ONE terminator)
+        no terminator in b', len(b') <= MAX + S -> yields None with the buffer holding exactly b'; t survives only while b is empty
+        no terminator in b', len(b') >  MAX + S -> LineTooLong   (S = longest terminator - 1: the buffer may end in half a terminator,
+                                                  so the verdict is the same however the line is fragmented: prefix-stability below)
+        else, K the EARLIEST terminator position in b' and N its length (longest at K): K > MAX -> LineTooLong, otherwise yields
+        b'[:K], leaves b'[K+N:], and the new tail is the remainder r of the one eol that extends the matched one when the match
+        ended the buffer (K+N = len b'), else b''.
+    Exactly one yield per turn; nothing else raises; the loop never ends."""
+    eols = EOLSETS[which]
+    ctx = B.ctx
+    raw = B.buf(hint="raw")
+    rem = {x: [e[len(x):] for e in eols if len(e) > len(x) and e.startswith(x)] for x in eols}
+    B.prove("table/at-most-one-longer-terminator-extends-each-terminator", all(len(v) <= 1 for v in rem.values()), props=["C15", "C13"])
+    cands = [b""] + sorted({v[0] for v in rem.values() if v})
+    marks = {}
+    MAX = 65536
+    SLACK = max(len(e) for e in eols) - 1        # a buffer without a terminator may end in all but one byte of the longest one
+    sval = lambda t: z3.StringVal(BI.b2s(bytes(t)))
+    zz = lambda v: sval(v) if isinstance(v, (bytes, bytearray)) else z(BI.as_text(ctx, v) if isinstance(v, Ref) else v)
+
+    def tail_ok(c, tail):
+        if isinstance(tail, (bytes, bytearray)):
+            return bytes(tail) in cands
+        return mk(z3.Or(*[zz(tail) == sval(t) for t in cands]), "bool")
+
+    def havoc(interp, fr):
+        marks["b"] = ctx.fresh("bytes", "b")
+        ctx.st(raw)["v"] = marks["b"]
+        k = ctx.fork(len(cands), "rest-of-a-split-terminator-pending") if len(cands) > 1 else 0      # (case split licensed by the invariant)
+        marks["t"] = cands[k]
+        if "tail" in fr.locals:
+            fr.locals["tail"] = cands[k]
+        marks["ev"] = []
+
+    def on_yield(interp, fr, e, v):
+        marks.setdefault("ev", []).append(("wait" if v is None else "line", v, ctx.st(raw)["v"]))
+        return None
+
+    def pre_state():
+        b, t = z(marks["b"]), marks["t"]
+        if t:
+            stripped = z3.And(z3.Length(b) > 0, z3.PrefixOf(sval(t), b))
+            b1 = z3.If(stripped, z3.SubString(b, len(t), z3.Length(b) - len(t)), b)
+            t1 = z3.If(z3.Length(b) == 0, sval(t), sval(b""))
+        else:
+            b1, t1 = b, sval(b"")
+        return b1, t1
+
+    def turn_ok(c, tail):
+        b1, t1 = pre_state()
+        ev = marks["ev"]
+        if len(ev) != 1:
+            return False
+        kind, val, at = ev[0]
+        found, K, N = earliest(SV(b1, "bytes"), eols)
+        now = z(at)
+        if kind == "wait":
+            return mk(z3.And(z3.Not(found), z3.Length(b1) <= MAX + SLACK, now == b1, zz(tail) == t1), "bool")
+        want_tail = sval(b"")
+        for x in eols:
+            if rem[x]:
+                want_tail = z3.If(z3.And(z3.IndexOf(b1, sval(x), 0) == K, N == len(x), K + N == z3.Length(b1)), sval(rem[x][0]), want_tail)
+        return mk(z3.And(found, K <= MAX, zz(val) == z3.SubString(b1, 0, K), now == z3.SubString(b1, K + N, z3.Length(b1) - K - N),
+                         zz(tail) == want_tail), "bool")
+    B.prog.spec_env["tail_ok"] = ModelFn(lambda c, a, k: tail_ok(c, *a), "spec:tail_ok")
+    B.prog.spec_env["turn_ok"] = ModelFn(lambda c, a, k: turn_ok(c, *a), "spec:turn_ok")
+    props = {"crlf": ["C13", "C17", "C15"], "crlf_lf": ["C13"], "crlf_lf_cr": ["C15"]}[which]
+    B.loop(HTTPING + ":parseLine", 0, invariant=["tail_ok(tail)"], modifies=[havoc],
+           body_ensures=[("a-turn-yields-once: waits-untouched or the-line-up-to-the-earliest-terminator, a-split-terminator-counted-once", "turn_ok(tail)")])
+    B.call(raw, eols=eols, qual=HTTPING + ":parseLine", yield_handler=on_yield)
+    if "b" not in marks:
+        B.prove("unreachable: the loop is always entered", False, top=True, props=props)
+        return
+    if B.raised():
+        B.handled = True
+        from pyvc import source
+        b1, t1 = pre_state()
+        found, K, N = earliest(SV(b1, "bytes"), eols)
+        B.prove("raise/only-LineTooLong", bool(B.raised(source.class_by_qual(HTTPING + ":LineTooLong"))), top=True, props=props + ["C16"])
+        B.prove("raise/only-beyond-limit-and-before-any-yield", z3.And(z3.BoolVal(not marks["ev"]), z3.Or(z3.And(z3.Not(found), z3.Length(b1) > MAX + SLACK), z3.And(found, K > MAX))),
+                top=True, props=props + ["C16"])
+        B.no_other_exception()
+        return
+    B.no_other_exception()
+    B.prove("never-returns", False, top=True, props=props)
+
+
+for _w in EOLSETS:
+    def _mk3(w=_w):
+        @contract(HTTPING + ":parseLine", props={"crlf": ["C13", "C17", "C15", "C16"], "crlf_lf": ["C13", "C16"], "crlf_lf_cr": ["C15", "C16"]}[w],
+                  name=HTTPING + ":parseLine[one arbitrary turn after any history, eols=%s]" % w, z3_ms=1500)
+        def _d(B):
+            parse_line_turn(B, w)
+    _mk3()
 
 
 # ------------------------------------------------------------------ resumption: state carried across a wait must not matter
